@@ -387,6 +387,9 @@ impl BoundsAnalyzer {
             let Some(bounds) = self.variable_bounds.get(name).copied() else {
                 continue;
             };
+            // a bound derived as 0 / -c is -0.0: publish it as plain 0 so that the rendered
+            // domain (`Real(-0, 4)`) reads back as the same text
+            let bounds = Bounds::new(bounds.lower + 0.0, bounds.upper + 0.0);
             let tightened_type = match variable.get_type() {
                 VariableType::Boolean => VariableType::Boolean,
                 VariableType::IntegerRange(_, _) => {
